@@ -17,7 +17,7 @@ type pointSet struct {
 	labels []string
 }
 
-var classesMain = []string{"uniform", "uniform", "clustered", "clustered", "wide", "chain", "chain", "ties", "ring", "ring-near-tie"}
+var classesMain = []string{"uniform", "uniform", "clustered", "clustered", "wide", "chain", "chain", "ties", "ring", "ring-near-tie", "near-duplicate"}
 
 // frame draws extent, aspect and centre of the region the points live in.
 func frame(t *rapid.T, labels *[]string) (E, aspect float64, c v2.Vec) {
@@ -160,16 +160,40 @@ func drawSet(t *rapid.T, nmin, nmax int, stress bool) pointSet {
 				break
 			}
 			b := inRect(l + "b")
-			switch rapid.IntRange(0, 2).Draw(t, l+".tie") {
+			switch rapid.IntRange(0, 3).Draw(t, l+".tie") {
 			case 0:
 				b.X = a.X
 				labels = append(labels, "tie:x")
 			case 1:
 				b.Y = a.Y
 				labels = append(labels, "tie:y")
+			case 3:
+				// two distinct points almost on top of each other, level: neighbours in the x order
+				// that differ by less than a billionth of a unit
+				b.Y = a.Y
+				b.X = a.X + g.LogUniform(t, l+".close", 2e-11, 9e-10)*float64(1-2*rapid.IntRange(0, 1).Draw(t, l+".side"))
+				labels = append(labels, "tie:near-duplicate")
 			}
 			pts = append(pts, b)
 		}
+	case "near-duplicate":
+		// a small set (extent 0.01..0.3) with one pair of distinct points 3e-10..9e-10 apart, level with each
+		// other and therefore neighbours in the x order; the extent is chosen so that the pair is still in
+		// margin-general position (relative separation >= 1e-9 of the set's diameter)
+		if n > 9 {
+			n = 4 + n%6
+		}
+		if n < 4 {
+			n = 4
+		}
+		E = g.LogUniform(t, "nd.extent", 0.01, 0.3)
+		W, H = E/2, E/2
+		for i := 0; i < n-1; i++ {
+			pts = append(pts, inRect(fmt.Sprintf("p%d", i)))
+		}
+		a := pts[rapid.IntRange(0, len(pts)-1).Draw(t, "nd.of")]
+		pts = append(pts, v2.Vec{X: a.X + g.LogUniform(t, "nd.close", 3e-10, 9e-10)*float64(1-2*rapid.IntRange(0, 1).Draw(t, "nd.side")), Y: a.Y})
+		labels = append(labels, "near-duplicate-pair")
 	case "ring-near-tie":
 		// few points very close to one circle (in-circle tests decided by a margin of 1e-9..1e-6 of the
 		// radius) of which two are ALMOST level: a triangle edge that is nearly but not exactly horizontal
